@@ -293,6 +293,7 @@ type scen struct {
 	cur0         int64
 	exp          []string
 	maxScan      uint64    // highest head of a completed scan
+	lastSentIdx  int64     // index of the last set that arrived on setChan
 	lost         []*gtInst // logs whose block-time lookup was made to fail
 	keyGen       gsKeyGen
 }
@@ -373,6 +374,7 @@ func startScen(cfg scenCfg) (*scen, error) {
 	select {
 	case g0 := <-setC:
 		sc.cur0 = int64(g0.Index)
+		sc.lastSentIdx = sc.cur0
 	case <-time.After(rendezvousTimeout):
 		sc.stop()
 		return nil, fmt.Errorf("guardian set not delivered")
@@ -760,10 +762,13 @@ func (sc *scen) runStep(si int, st *step) {
 			}
 			sim.mu.Lock()
 			defer sim.mu.Unlock()
-			cs := sim.gs.calls[calls0:]
-			n := len(cs)
-			return sim.subCount >= subs0+int(expected) && n >= 2 && cs[n-2].Kind == "idx" && !cs[n-2].Err && cs[n-1].Kind == "set" && !cs[n-1].Err &&
-				sim.pollsArrived > pollsAtDeath
+			okSet := 0 // the initial fetch of the last re-entry has been answered (the set call is its second call)
+			for _, c := range sim.gs.calls[calls0:] {
+				if c.Kind == "set" && !c.Err {
+					okSet++
+				}
+			}
+			return sim.subCount >= subs0+int(expected) && okSet >= 1 && sim.pollsArrived > pollsAtDeath
 		})
 		if !okUp {
 			sim.mu.Lock()
@@ -1021,6 +1026,21 @@ drainSets:
 		default:
 			break drainSets
 		}
+	}
+	sim.mu.Lock()
+	truthSets := append([][]int(nil), sim.gs.sets...)
+	sim.mu.Unlock()
+	for _, x := range g.Sets {
+		if x.Idx < 0 || x.Idx >= int64(len(truthSets)) {
+			sc.monf("gs-run:index-not-in-contract", "step %d (%s): a set was sent under index %d; the contract's current index is %d", si, st.Op, x.Idx, len(truthSets)-1)
+		} else if !sameInts(x.Keys, truthSets[x.Idx]) {
+			sc.monf("gs-run:keys-of-another-set", "step %d (%s): keys %v were sent under index %d; the contract's set %d is %v", si, st.Op, x.Keys, x.Idx, x.Idx, truthSets[x.Idx])
+		}
+		if x.Idx == sc.lastSentIdx {
+			sc.monf("gs-run:same-index-twice-in-a-row", "step %d (%s): a set with index %d was sent although the previous set sent by this Watcher value carried the same index (Run returned %d times in this step)",
+				si, st.Op, x.Idx, int(atomic.LoadInt64(&sc.deaths)-deaths0))
+		}
+		sc.lastSentIdx = x.Idx
 	}
 	g.Died = int(atomic.LoadInt64(&sc.deaths) - deaths0)
 	for _, m := range fw {
@@ -1654,6 +1674,12 @@ func TestVerifC10(t *testing.T) {
 		if evmThorough() {
 			n = 6000
 		}
+		if evmThorough() || os.Getenv("VERIF_C10_TICKER") == "1" {
+			// free-running scenarios with the real 15 s guardian-set ticker (about a minute each, run first so that they overlap the rest)
+			for i := 0; i < 3; i++ {
+				jobs = append([]job{{50 + i, scenCfg{Wait: true, Head0: uint64(1000 + i), PollMs: 1, Name: fmt.Sprintf("ticker-%d", i)}, nil}}, jobs...)
+			}
+		}
 		probe := NewEthWatcher("", evmContract, "", "", 0, nil, nil, nil, true, nil, false)
 		for i := 0; i < n; i++ {
 			r := &erng{s: evmSeed()*1000003 + uint64(i)*7919 + 17}
@@ -1674,7 +1700,12 @@ func TestVerifC10(t *testing.T) {
 				if atomic.LoadInt64(&machineryFailures) >= 24 {
 					continue // the watcher does not respond any more: the histories run so far show it, the rest would only wait for timeouts
 				}
-				row := runScenario(j.sid, j.cfg, j.script)
+				var row histRow
+				if strings.HasPrefix(j.cfg.Name, "ticker-") {
+					row = runTickerScenario(j.sid, j.cfg, j.sid)
+				} else {
+					row = runScenario(j.sid, j.cfg, j.script)
+				}
 				if len(row.Harness) > 0 {
 					atomic.AddInt64(&machineryFailures, 1)
 				}
